@@ -4,7 +4,7 @@
 set -e
 cd "$(dirname "$0")"
 mkdir -p evidence replays
-export PYTHONDONTWRITEBYTECODE=1 PYTHONPATH=/verif
+export PYTHONDONTWRITEBYTECODE=1 PYTHONPATH="$PWD"
 /venv/bin/python -B -W ignore - <<'PY'
 import sys
 sys.path.insert(0, "/repo")
